@@ -26,8 +26,8 @@ by C05 (`re` = what the user wrote) to this view; `eval_stored` says both evalua
   by parsing) does change meaning when serialised and parsed — the normal form is necessary.
 * `wrap_once`, `wrap_once_any`, `patterns_wrapped_once`, `rounds_fixed` — after any number of serialise/parse rounds the
   stored text is `wrapStr p` exactly once; `stored_is_whole_match`: and it is applied as one whole-string match.
-* `armor_equiv`, `armor_equiv_encoded`, `parseDefinition_armored`, `parseDefinition_plain` — armor and plain JSON mean
-  the same.
+* `armor_equiv`, `armor_equiv_encoded`, `armor_of_text`, `armored_same_as_plain`, `parseDefinition_armored`,
+  `parseDefinition_plain` — armor and plain JSON mean the same, for every text and every JSON text layer.
 * `b64_roundtrip`, `b64_canonical`, `b64_rejects_length`, `b64_rejects_symbol`, `b64_rejects_padding_inside` — base64.
 * `reject_*` — every malformed class is an error (never `ok`, never silently ignored): armor prefix absent / repeated
   (F7), bad base64, bad UTF-8, text that is not JSON, not an object / several variants / unknown variant, a required field
@@ -827,6 +827,11 @@ theorem armor_equiv_encoded (P : String → Option JVal) (bytes : List UInt8) (s
     fromArmor P (String.ofList (armorPrefix ++ b64encode bytes)) = fromJsonStr P (String.ofList s) :=
   armor_equiv P _ bytes s (b64decode_encode bytes) hu
 
+/-- **armored ≡ plain, for every text**: the armor of `s` is read as `s` -/
+theorem armor_of_text (P : String → Option JVal) (s : String) : fromArmor P (armorOf s) = fromJsonStr P s := by
+  unfold armorOf
+  rw [armor_equiv_encoded P _ s.toList (utf8decode_encode s.toList), String.ofList_toList]
+
 theorem isArmored_armor (e : List Char) : isArmored (String.ofList (armorPrefix ++ e)) = true := by
   unfold isArmored
   rw [String.toList_ofList]
@@ -840,11 +845,20 @@ theorem parseDefinition_armored (P : String → Option JVal) (e : List Char) (by
   rw [isArmored_armor, if_pos rfl]
   exact armor_equiv P e bytes s hb hu
 
+theorem parseDefinition_armorOf (P : String → Option JVal) (s : String) : parseDefinition P (armorOf s) = fromJsonStr P s := by
+  unfold armorOf
+  rw [parseDefinition_armored P _ _ s.toList (b64decode_encode _) (utf8decode_encode s.toList), String.ofList_toList]
+
 /-- … everything else is JSON text -/
 theorem parseDefinition_plain (P : String → Option JVal) (s : String) (h : isArmored s = false) :
     parseDefinition P s = fromJsonStr P s := by
   unfold parseDefinition
   rw [h]; rfl
+
+/-- the two ways of giving one definition on the command line mean the same -/
+theorem armored_same_as_plain (P : String → Option JVal) (s : String) (h : isArmored s = false) :
+    parseDefinition P (armorOf s) = parseDefinition P s := by
+  rw [parseDefinition_armorOf, parseDefinition_plain P s h]
 
 /-! ## base64 -/
 
@@ -1406,6 +1420,8 @@ example : utf8decode [0xC0, 0xAF] = none := by decide
 example : utf8decode [0xED, 0xA0, 0x80] = none := by decide
 example : utf8decode [0xF4, 0x90, 0x80, 0x80] = none := by decide
 example : utf8decode [0xFF] = none := by decide
+example : utf8encode ['é', '€'] = [0xC3, 0xA9, 0xE2, 0x82, 0xAC] := by decide
+example : armorOf "{}" = "base64:e30=" := by decide
 
 /-- armor, for every text layer `P` -/
 example (P : String → Option JVal) : fromArmor P (String.ofList (armorPrefix ++ "e30=".toList)) = fromJsonStr P (String.ofList ['{', '}']) :=
